@@ -150,6 +150,35 @@ def handle : Handler := fun op inp impl =>
       model := Json.mkObj [("outcome", want)],
       why := if holds then "" else
         s!"limit not sharp: message of {size} bytes (position {nat (field inp "pos")} of {n}) against limit {limit} gave {outcome} with {got} messages handed on, the tested one with {echo} bytes ({str (field impl "detail")}); want {want}" }
+  | "srvlimit" =>
+    -- the limit the real runTestCasesForServer configures a server process with, against the
+    -- padding of the real expandRequestData on a probe request
+    let inst := field inp "inst"
+    let i : Instance := { protocol := nat (field inst "protocol"), httpVersion := nat (field inst "http"),
+                          useTLS := bool (field inst "tls"), clientCerts := bool (field inst "certs"),
+                          isRef := bool (field inst "isRef") }
+    let d := int (field (field inp "probe") "off")
+    let got := bool (field impl "got")
+    let sent := nat (field impl "sent")
+    let const := nat (field impl "const")
+    let base := nat (field impl "base")
+    let cls := str (field impl "class")
+    let sz := nat (field impl "size")
+    -- the model: the constant for every instance; the instance is passed on as it is
+    let mSent := limitSent const i
+    let echoed := nat (field impl "protocol") == i.protocol && nat (field impl "http") == i.httpVersion &&
+      bool (field impl "tls") == i.useTLS && bool (field impl "creds") == i.useTLS &&
+      bool (field impl "clientCert") == i.clientCerts
+    -- the property: a request accepted with offset d is beyond the CONFIGURED limit iff d > 0
+    let holds := if got && cls == "ok" then holdsConfigured sent sz d else true
+    { agree := got && sent == mSent && base == const && echoed &&
+        (cls != "ok" || (sz : Int) == (const : Int) + d),
+      holds := holds,
+      nontrivial := got && cls == "ok",
+      cls := s!"srvlimit:{i.protocol}:" ++ (if got then cls else "norequest"),
+      model := Json.mkObj [("sent", toJson mSent)],
+      why := if holds then "" else
+        s!"server instance (protocol {i.protocol}, HTTP version {i.httpVersion}, tls {i.useTLS}, reference server {i.isRef}) is configured with message_receive_limit {sent}, but a request with size_relative_to_limit {d} is padded to {sz} bytes (offset 0 gives {base}): it must be beyond the server's limit iff the offset is positive" }
   | _ => bad ("unknown op " ++ op)
 
 end ConfModel.Driver.C19
